@@ -149,6 +149,10 @@ def tracegen_jobs(tier):
             # the caller takes the buffer out of the public `output` field between calls
             J.seed_job(cfg(P), warm=warm, take_output=True)
             J.bytes_job(cfg(P, 10, 60, ext=True, buf=True), warm=warm, take_output=True)
+        # a generator constructed for another protocol and re-targeted through the public state field
+        for k in range(3 if q else 12):
+            J.seed_job(cfg(P), warm=k % 2, retarget_from=(P + 1 + k) % 6)
+            J.bytes_job(cfg(P, 10, 60), warm=k % 2, retarget_from=(P + 2 + k) % 6)
         # an earlier call with a very large memo, then an ordinary pickle
         if P >= 1:
             J.seed_job(cfg(P, 3500, 4500), warm=1)
